@@ -114,8 +114,8 @@ class Case:
         self.desc = desc
         self.ot = totuple(desc["ot"])
         self.st = totuple(desc["st"])
-        self.O = OTree(self.ot, "o")
-        self.S = OTree(self.st, "s")
+        self.O = OTree(self.ot, desc.get("oprefix", "o"))
+        self.S = OTree(self.st, desc.get("sprefix", "s"))
         self.leafmap = dict(desc["leafmap"])
         self.leafsyn = {k: list(v) for k, v in desc["leafsyn"].items()} if desc.get("leafsyn") else None
         self.rootsyn = list(desc["rootsyn"]) if desc.get("rootsyn") else None
